@@ -107,6 +107,8 @@ def _refute_by_sampling(text, timeout_ms=8000, tries=4):
             seen.add(e.get_id())
             if z3.is_const(e) and e.decl().kind() == z3.Z3_OP_UNINTERPRETED and z3.is_real(e):
                 consts[e.decl().name()] = e
+            elif z3.is_app(e) and e.num_args() > 0 and e.decl().kind() == z3.Z3_OP_UNINTERPRETED and z3.is_real(e):
+                consts["app!%d" % e.get_id()] = e
             for c in e.children():
                 walk(c, seen)
         seen = set()
